@@ -435,6 +435,30 @@ def _generate(loader):
                                       OpaqueAffine(g, st.Tensor(c3.a[None])))
         if not trlib.same_tensor(s3(xin).a, linalg.homogeneous_transform(st.Tensor(c3.a[None]), y2).a):
             raise TraceError("SequentialTransform.forward of 3 members is not one more application")
+        # which member is told that the points are the undeformed lattice (grid=True)?  Only the FIRST one: after any
+        # member -- linear or not -- the points are no longer the lattice of the (next) member's own domain sampling
+        flags = []
+
+        class RecLinear(AnyLinear):
+            def forward(self, points, grid=False):
+                flags.append(("linear", bool(grid)))
+                return super().forward(points, grid)
+
+        class RecNonRigid(OpaqueAffine):
+            def forward(self, points, grid=False):
+                flags.append(("nonrigid", bool(grid)))
+                return super().forward(points, grid)
+        xg = st.Tensor(x.a.reshape((1,) * (D + 1) + (D,)))
+        for kinds in (("L", "N"), ("N", "L"), ("L", "L", "N"), ("N", "N"), ("L", "N", "L", "N")):
+            for cls_ in (comp.SequentialTransform, comp.MultiLevelTransform):
+                for gflag in (True, False):
+                    mem = [(RecLinear if kd == "L" else RecNonRigid)(g, st.Tensor(mat_input(f"m{i}_", D, "H").a[None])) for i, kd in enumerate(kinds)]
+                    del flags[:]
+                    cls_(g, *mem)(xg, grid=gflag)
+                    want = [("linear" if kd == "L" else "nonrigid", gflag and i == 0) for i, kd in enumerate(kinds)]
+                    if flags != want:
+                        raise TraceError(f"{cls_.__name__}.forward(grid={gflag}) of members {kinds} passes grid flags {flags}; only the first member "
+                                         f"may be told that the points are the undeformed lattice")
         ys = [st.symvec(f"y{k}_", D) for k in range(3)]
         prev = None
         for k in (1, 2, 3):
@@ -564,6 +588,64 @@ def _generate(loader):
                 if not isinstance(p, st.Tensor) or p.shape[0] != groups or p.shape[1] != D:
                     raise TraceError(f"{name}: default parameters have shape {getattr(p, 'shape', None)}")
                 zero_ok.append(all(e.is_const() and e.value() == 0 for e in p.a.reshape(-1)))
+    # align_corners / shape arguments reaching the resize and sampling kernels on the dense-field paths:
+    # DenseVectorFieldTransform.evaluate (resize=True), SpatialTransform.disp (coarse buffer -> own grid),
+    # forward -> transform_points -> warp_points -> sample_flow -> grid_sample, forward(grid=True) -> warp_grid -> grid_reshape
+    Ufun = L.load("deepali.core.functional")
+    calls = []
+
+    def rec_reshape(data, shape, mode=None, align_corners=None, **kw):
+        calls.append(("grid_reshape", tuple(int(v) for v in shape), align_corners))
+        if align_corners is None:
+            raise TraceError("grid_reshape called without an explicit align_corners flag on a dense-field path")
+        return st.Tensor(np.array([E.var("r")], dtype=object).reshape((1,) * data.a.ndim)).expand(*(tuple(data.shape[:2]) + tuple(int(v) for v in shape)))
+
+    def rec_sample(data, grid, mode=None, padding=None, align_corners=None, **kw):
+        calls.append(("grid_sample", None, align_corners))
+        if align_corners is None:
+            raise TraceError("grid_sample called without an explicit align_corners flag on a dense-field path")
+        return st.Tensor(np.array([E.var("s")], dtype=object).reshape((1,) * data.a.ndim)).expand(*(tuple(data.shape[:2]) + tuple(grid.shape[1:-1])))
+    saved = (Ufun.grid_reshape, flow.grid_reshape, flow.grid_sample)
+    try:
+        Ufun.grid_reshape, flow.grid_reshape, flow.grid_sample = rec_reshape, rec_reshape, rec_sample
+        for name in ("DisplacementFieldTransform", "StationaryVelocityFieldTransform"):
+            cls = getattr(nr, name)
+            for D in (2, 3):
+                for ac in (False, True):
+                    for resize in (False, True):
+                        g = mk_grid(Grid, D, align=ac)
+                        sizes = [6.0, 4.0] if D == 2 else [6.0, 4.0, 4.0]
+                        g._size = st.tensor(sizes)
+                        gshape = tuple(int(v) for v in reversed(sizes))
+                        t = cls(g, stride=2, resize=resize)
+                        if tuple(t.params.shape[2:]) != tuple(v // 2 for v in gshape):
+                            raise TraceError(f"{name}(stride=2): parameter shape {tuple(t.params.shape)}")
+                        del calls[:]
+                        u = t.evaluate()
+                        want = [("grid_reshape", gshape, ac)] if resize else []
+                        if calls != want:
+                            raise TraceError(f"{name}.evaluate(resize={resize}) on an align_corners={ac} grid calls {calls}, expected {want}")
+                        if name != "DisplacementFieldTransform":
+                            continue
+                        t.register_buffer("u", u, persistent=False)     # what update() does for a displacement field
+                        del calls[:]
+                        t.disp()
+                        want = [] if resize else [("grid_reshape", gshape, ac)]
+                        if calls != want:
+                            raise TraceError(f"disp() of a {'resized' if resize else 'coarse'} buffer on an align_corners={ac} grid calls {calls}, expected {want}")
+                        xp = st.Tensor(np.array([E.var(f"x{i}") for i in range(D)], dtype=object).reshape(1, 1, D))
+                        del calls[:]
+                        base.SpatialTransform.forward(t, xp)
+                        if calls != [("grid_sample", None, ac)]:
+                            raise TraceError(f"forward(points) on an align_corners={ac} grid calls {calls}")
+                        xl = st.Tensor(np.array([E.var(f"x{i}") for i in range(D)], dtype=object).reshape((1,) * (D + 1) + (D,)))
+                        xl = xl.expand(*((1,) + (3,) * D + (D,)))
+                        del calls[:]
+                        base.SpatialTransform.forward(t, xl, grid=True)
+                        if calls != [("grid_reshape", (3,) * D, ac)]:
+                            raise TraceError(f"forward(lattice, grid=True) on an align_corners={ac} grid calls {calls}")
+    finally:
+        Ufun.grid_reshape, flow.grid_reshape, flow.grid_sample = saved
     out.append("(* every non-rigid class resets its parameters (displacements / velocities / B-spline coefficients) to 0 *)")
     out.append(f"Definition gen_nonrigid_defaults_zero : bool := {'true' if all(zero_ok) else 'false'}.\n")
     return "\n".join(out)
